@@ -136,6 +136,27 @@ def generate():
         U("doRemoteCall: expected the single call %s(*args, **kwargs), found %s" % (mname, [ast.unparse(c) for c in calls]))
     out.append("Definition remote_prefix : string := %s." % coq_string(prefix))
 
+    # ---- referenceable.py: Referenceable.getInterface looks the RemoteInterface up on the INSTANCE
+    gi = P.find_def(rm, "Referenceable.getInterface")
+    b = body_nodoc(gi)
+    ok = (len(b) == 2 and isinstance(b[0], ast.If) and ast.unparse(b[0].test) == "not self._interface" and not b[0].orelse
+          and ast.unparse(b[0].body[0]) == "self._interface = getRemoteInterface(self)"
+          and ast.unparse(b[1]) == "return self._interface")
+    if ok:
+        # nothing else may assign self._interface
+        asg = [ast.unparse(n) for n in ast.walk(gi) if isinstance(n, ast.Assign) and "self._interface" in [ast.unparse(t) for t in n.targets]]
+        ok = asg == ["self._interface = getRemoteInterface(self)"]
+    if not ok:
+        U("Referenceable.getInterface no longer computes getRemoteInterface(self) for the instance itself")
+    rim = P.load("remoteinterface.py")
+    gri = P.find_def(rim, "getRemoteInterface")
+    frags(gri, "getRemoteInterface", ["interfaces = list(providedBy(obj))", "isinstance(i, RemoteInterfaceClass)", "return ilist[0]", "return None"])
+    if not any(isinstance(x, ast.ImportFrom) and x.module == "zope.interface" and any(a.name == "providedBy" for a in x.names) for x in rim.body) \
+            and "providedBy" not in [getattr(x, "id", None) for x in ast.walk(rim)]:
+        U("remoteinterface.py: providedBy is not zope.interface.providedBy")
+    out.append("Inductive iface_lookup := PerInstance.")
+    out.append("Definition interface_lookup : iface_lookup := PerInstance.  (* getInterface(): getRemoteInterface(self), per instance *)")
+
     # ---- broker.py
     bm = P.load("broker.py")
     gm = P.find_def(bm, "Broker.getMyReferenceByCLID")
